@@ -149,6 +149,21 @@ def cases(tier):
     cs.append(C("l/einsum/ij,ij->/same", "out = mg.einsum('ij,ij->', x, x)", [("x", (2, 2))]))
     cs.append(C("l/einsum/i,i,i->/same3", "out = mg.einsum('i,i,i->', x, x, x)", [("x", (2,))]))
     cs.append(C("l/einsum/ij,jk->ik/same", "out = mg.einsum('ij,jk->ik', x, x)", [("x", (2, 2))]))
+    # a tensor passed together with its OWN data array (a constant): the array contributes nothing although it is the same object as x.data.
+    # The reference forward uses a separate constant c constrained to equal x (the path-wise terms cannot tell x from x.data)
+    cs.append(C("l/einsum/i,i->/x,x.data", "out = mg.einsum('i,i->', x, x.data)", [("x", (2,))], carrs=[["c", [2]]], assume="eq(c, x)", smooth_at_ties=True,
+                ref_body="out = (x * c).sum()"))
+    cs.append(C("l/einsum/i,i->/x.data,x", "out = mg.einsum('i,i->', x.data, x)", [("x", (2,))], carrs=[["c", [2]]], assume="eq(c, x)", smooth_at_ties=True,
+                ref_body="out = (x * c).sum()"))
+    cs.append(C("l/einsum/i,i,i->/x.data,x,x", "out = mg.einsum('i,i,i->', x.data, x, x)", [("x", (2,))], carrs=[["c", [2]]], assume="eq(c, x)", smooth_at_ties=True,
+                ref_body="out = (c * x * x).sum()"))
+    cs.append(C("l/einsum/ij,ij->i/x,x.data", "out = mg.einsum('ij,ij->i', x, x.data)", [("x", (2, 2))], carrs=[["c", [2, 2]]], assume="eq(c, x)", smooth_at_ties=True,
+                ref_body="out = (x * c).sum(axis=1)"))
+    cs.append(C("b/multiply/x,x.data", "out = x * x.data", [("x", (2,))], carrs=[["c", [2]]], assume="eq(c, x)", smooth_at_ties=True, ref_body="out = x * c"))
+    cs.append(C("s/multiply_sequence/x,x.data,x", "out = mg.multiply_sequence(x, x.data, x)", [("x", (2,))], carrs=[["c", [2]]], assume="eq(c, x)", smooth_at_ties=True,
+                ref_body="out = x * c * x"))
+    cs.append(C("l/matmul/x,x.data", "out = mg.matmul(x, x.data)", [("x", (2, 2))], carrs=[["c", [2, 2]]], assume="eq(c, x)", smooth_at_ties=True,
+                ref_body="out = np.array([[sum(x[i, k] * c[k, j] for k in range(2)) for j in range(2)] for i in range(2)], dtype=object)"))
     cs.append(C("l/einsum/ii->i/x,y", "out = mg.einsum('ii,i->i', x, y)", [("x", (2, 2)), ("y", (2,))]))
     cs.append(C("l/einsum/optimize", "out = mg.einsum('ij,jk,kl->il', x, y, z, optimize=True)",
                 [("x", (2, 2)), ("y", (2, 2)), ("z", (2, 1))]))
